@@ -70,6 +70,36 @@ pub fn record(id: u64, s: &str) -> String {
         cps(&mut out, v.chars().rev());
         out.push_str(",\"display\":");
         cps(&mut out, format!("{}", a).chars());
+        // the iterator through its other entry points: stepping by more than one from either end, counting,
+        // last, and alternating ends
+        out.push_str(",\"nth\":");
+        cps(&mut out, (0..n).map(|k| v.chars().nth(k).unwrap_or('\u{10FFFF}')));
+        out.push_str(",\"nth_back\":");
+        cps(&mut out, (0..n).map(|k| v.chars().nth_back(k).unwrap_or('\u{10FFFF}')));
+        out.push_str(",\"rev_skip\":");
+        cps(&mut out, (0..n).map(|k| v.chars().rev().skip(k).next().unwrap_or('\u{10FFFF}')));
+        out.push_str(",\"alt\":");
+        {
+            let mut it = v.chars();
+            let mut alt = Vec::new();
+            let mut front = true;
+            loop {
+                let x = if front { it.next() } else { it.next_back() };
+                match x {
+                    Some(c) => alt.push(c),
+                    None => break,
+                }
+                front = !front;
+            }
+            cps(&mut out, alt);
+        }
+        let _ = write!(
+            out,
+            ",\"count\":{},\"last\":{},\"past_end\":{}",
+            v.chars().count(),
+            v.chars().last().map_or(-1, |c| c as i64),
+            v.chars().nth(n).is_none() && v.chars().nth_back(n).is_none()
+        );
         out.push_str(",\"slices\":[");
         let mut first = true;
         let mut sl = |out: &mut String, form: &str, x: usize, y: usize, s: Utf32Str<'_>| {
@@ -111,7 +141,7 @@ pub fn record(id: u64, s: &str) -> String {
             let mut out = String::new();
             let _ = write!(out, "{{\"id\":{},\"s\":", id);
             cps(&mut out, s.chars());
-            out.push_str(",\"panic\":true,\"ctors\":[],\"len\":0,\"get\":[],\"fwd\":[],\"rev\":[],\"display\":[],\"slices\":[]}");
+            out.push_str(",\"panic\":true,\"ctors\":[],\"len\":0,\"get\":[],\"fwd\":[],\"rev\":[],\"display\":[],\"nth\":[],\"nth_back\":[],\"rev_skip\":[],\"alt\":[],\"count\":0,\"last\":-1,\"past_end\":true,\"slices\":[]}");
             out
         }
     }
@@ -140,6 +170,21 @@ pub fn run(tier: &str, seed: u64, shards: usize, outdir: &str) {
             for _ in 0..len {
                 t.push(alpha[(x % k) as usize]);
                 x /= k;
+            }
+            id += 1;
+            writeln!(files[(id as usize) % shards], "{}", record(id, &t)).unwrap();
+        }
+    }
+    // every arrangement of CR / LF with ASCII, precomposed Latin-1 (below U+0300) and one combining mark
+    let small: Vec<char> = ['a', '\u{e4}', '\r', '\n', '\u{301}', ' '].to_vec();
+    let ks = small.len() as u64;
+    for len in 3..=(if thorough { 6 } else { 5 }) {
+        for code in 0..ks.pow(len) {
+            let mut x = code;
+            let mut t = String::new();
+            for _ in 0..len {
+                t.push(small[(x % ks) as usize]);
+                x /= ks;
             }
             id += 1;
             writeln!(files[(id as usize) % shards], "{}", record(id, &t)).unwrap();
